@@ -221,7 +221,9 @@ def strategy(tier):
         bop = st.tuples(blk, szs, st.integers(0, 2 ** 32)).map(lambda t: ["blk", t[0][0], t[1], t[2], t[0][1], t[0][2]])
         bad = st.sampled_from(["nan", "str", "none", "list", "hugeint", "neghugeint"]).map(lambda w: ["bad", w])
         ci = st.one_of(st.sampled_from(_ALPHAS), st.floats(0.0, 1.0)).map(lambda a: ["ci", _hx(a)])
-        op = st.one_of(rop, rop, rop, rop, rop, rop, bop, st.just(["init"]), bad, ci)
+        qop = st.tuples(st.one_of(st.sampled_from([0.0, 1.0, 3.0, 2.5, -1.0, 90.0]), st.floats(-100, 100)).map(_hx),
+                        st.sampled_from(["s", "min", "h", "ms"])).map(lambda t: ["q", t[0], t[1]])
+        op = st.one_of(rop, rop, rop, rop, rop, rop, bop, st.just(["init"]), bad, ci, qop)
         ops = draw(st.lists(op, min_size=1, max_size=maxops))
         if draw(st.integers(0, 3)) == 0:
             ops = [draw(bop)] + ops
@@ -587,9 +589,20 @@ def _sqrt_tol(a2, sd):
 
 
 # ---------------------------------------------------------------- interpreter
+_QUNITS = {"s": 1.0, "min": 60.0, "h": 3600.0, "ms": 0.001}
+
+
+def _qsi(op):
+    """SI value of a ["q", value, unit] observation (a Duration): value * factor, as pydsol computes it"""
+    return _dec(op[1]) * _QUNITS[op[2]]
+
+
 def _all_values(case):
     vals = []
     for op in case["ops"]:
+        if op[0] == "q":
+            vals.append(_qsi(op))
+            continue
         if op[0] == "r":
             vals.append(_dec(op[1]))
         elif op[0] == "blk":
@@ -657,14 +670,15 @@ def run_case(case):
     compared = 0
     nmax = 0
 
-    def observe(x, compare):
+    def observe(x, compare, fed=False):
         nonlocal obs_since_init, init_between, pending_init, nontrivial, compared, nmax
-        if rec is not None:
+        if rec is not None and not fed:
             del rec.events[:]
         orc.add(x)
         nmax = max(nmax, orc.n)
         try:
-            feed(x)
+            if not fed:
+                feed(x)
         except Exception as e:                                    # noqa: BLE001
             kind = "register-raises:%s:%s" % (type(e).__name__, _context(orc))
             if kind not in failed:
@@ -688,7 +702,30 @@ def run_case(case):
 
     for op in case["ops"]:
         name = op[0]
-        if name == "r":
+        if name == "q":
+            # a quantity (a float subclass) as observation: either it is registered with its SI value (what the
+            # event-publishing tally does) or it is rejected - and then nothing may have changed
+            from pydsol.core.units import Duration
+            q = Duration(_dec(op[1]), op[2])
+            si = float.__float__(q)
+            if not math.isfinite(si) or si != _qsi(op):
+                continue
+            before = _snapshot(stat, False)
+            if rec is not None:
+                del rec.events[:]
+            try:
+                feed(q)
+                accepted = True
+            except Exception as e:                                # noqa: BLE001
+                accepted = False
+                if _snapshot(stat, False) != before:
+                    out.fail("reject:state-changed", {"input": repr(q), "error": repr(e), "before": before,
+                                                      "after": _snapshot(stat, False)})
+                lab.add("quantity-observation-rejected")
+            if accepted:
+                lab.add("quantity-observation-accepted")
+                observe(si, True, fed=True)
+        elif name == "r":
             x = _dec(op[1])
             if _finite(x):
                 observe(x, True)
@@ -750,13 +787,18 @@ def run_case(case):
     return out
 
 
+def _plain(c):
+    """the float value of a float subclass (a quantity handed in as observation may be published as it came)"""
+    return float.__float__(c) if isinstance(c, float) and type(c) is not float else c
+
+
 def _check_published(out, events, got, x, via):
     seen = {}
     for tname, content in events:
         seen[tname] = content
     if "OBSERVATION_ADDED_EVENT" in seen:
         c = seen["OBSERVATION_ADDED_EVENT"]
-        if not (c == x):
+        if not (_plain(c) == x):
             out.fail("publish:observation", {"got": _enc(c), "want": _enc(x)})
     for tname, gname in PUBLISHED.items():
         g = got.get(gname)
